@@ -331,6 +331,9 @@ def einsum(spec, ops):
 _UNDEF = [0]
 
 
+_NO_CONST = object()
+
+
 class TenSym(PySym):
     def __init__(self, env=None, positive=(), funcs=None, parent=None, models=None):
         super().__init__(env, positive)
@@ -351,6 +354,58 @@ class TenSym(PySym):
         self.module_env = parent.module_env if parent is not None else {}      # names of the analysed module (imports, constants): visible in every function evaluated below
 
     # ------------------------------------------------------------------ helpers
+    def _sibling_method(self, recv, m):
+        """`self.helper(...)` inside a method that a rule evaluates on a hand-made model of `self`: the helper is the method of that name in
+        the class the evaluated method stands in (a private helper extracted from it)."""
+        from . import pyfront
+        ev_ = self
+        while ev_ is not None:
+            fn_ = getattr(ev_, "current_fn", None)
+            if fn_ is not None and fn_.args.args and ev_.env.get(fn_.args.args[0].arg) is recv:
+                mod_ = pyfront.MODULE_OF.get(id(fn_))
+                cls_ = mod_.parents.get(fn_) if mod_ is not None else None
+                if isinstance(cls_, ast.ClassDef):
+                    for st in cls_.body:
+                        if isinstance(st, ast.FunctionDef) and st.name == m and not any(src(d_) == "property" or src(d_).endswith(".setter") for d_ in st.decorator_list):
+                            return st
+                return None
+            ev_ = ev_.parent_ev
+        return None
+
+    def _module_constant(self, name):
+        """a name that is neither a local, a model nor a function: a constant assigned exactly once at the top level of the module the
+        evaluated functions / classes come from (a table hoisted out of a method).  Evaluated once per root evaluator, so every use sees one object."""
+        root = self
+        while root.parent_ev is not None:
+            root = root.parent_ev
+        cache = root.__dict__.setdefault("_modconst_cache", {})
+        if name in cache:
+            return cache[name]
+        from . import pyfront
+        mods = []
+        fns = list(self.funcs.values()) + [m_ for c_ in self.classes.values() for m_ in c_.body if isinstance(m_, ast.FunctionDef)]
+        ev_ = self
+        while ev_ is not None:          # and the modules of the functions being evaluated right now
+            if getattr(ev_, "current_fn", None) is not None:
+                fns.append(ev_.current_fn)
+            ev_ = ev_.parent_ev
+        for f_ in fns:
+            m_ = pyfront.MODULE_OF.get(id(f_))
+            if m_ is not None and all(m_ is not x_ for x_ in mods):
+                mods.append(m_)
+        found = []
+        for m_ in mods:
+            for st in m_.tree.body:
+                tg_ = st.targets if isinstance(st, ast.Assign) else ([st.target] if isinstance(st, (ast.AnnAssign, ast.AugAssign)) else [])
+                if any(isinstance(t_, ast.Name) and t_.id == name for t_ in tg_):
+                    found.append(st)
+        if len(found) != 1 or not isinstance(found[0], ast.Assign) or len(found[0].targets) != 1:
+            return _NO_CONST
+        sub = TenSym(self.globals_env(), self.positive, self.funcs, parent=self)
+        v = sub.ex(found[0].value)
+        cache[name] = v
+        return v
+
     def lift(self, v):
         if isinstance(v, Ten):
             return v
@@ -682,6 +737,11 @@ class TenSym(PySym):
             if n.id in self.funcs:
                 # a module-level function used as a value (stored in a table, passed on): called later through apply_closure
                 return ("<closure>", self.funcs[n.id], TenSym({}, self.positive, self.funcs, parent=self))
+            if n.id in ("list", "tuple", "int", "float", "str", "bytes", "dict", "set", "bool", "slice"):
+                return ("<type>", n.id)         # a builtin type as a value (kept in a table for isinstance)
+            mc_ = self._module_constant(n.id)
+            if mc_ is not _NO_CONST:
+                return mc_
             raise Unsupported("unbound name %s" % n.id)
         if isinstance(n, ast.Attribute):
             d = dotted(n)
@@ -1214,6 +1274,10 @@ class TenSym(PySym):
                 return recv._getitem(recv, self.pyval(self.ex(n.args[0])))
             if isinstance(recv, Obj):
                 cm = recv.__dict__.get("_methods") or {}
+                if m not in cm and m not in recv.__dict__:
+                    sib_ = self._sibling_method(recv, m)
+                    if sib_ is not None:
+                        cm = dict(cm, **{m: sib_})
                 if m in cm and m not in recv.__dict__:
                     # a method of the modelled class: evaluated from its source with self bound to the model object
                     sub = TenSym(self.globals_env(), self.positive, self.funcs, parent=self)
@@ -1226,6 +1290,12 @@ class TenSym(PySym):
                         raise Raised("the analysed path raises: TypeError (%s() takes %d positional arguments but %d were given)" % (m, len(pn_) + 1, len(posv_) + 1), "TypeError('arguments')")
                     first_ = {} if static_ else {all_[0] if all_ else "self": (recv if "classmethod" not in deco_ else recv)}
                     given_ = dict(first_, **dict(zip(pn_, posv_)), **{k.arg: self.ex(k.value) for k in n.keywords if k.arg})
+                    for k in n.keywords:
+                        if k.arg is None:       # **options collected in a dict
+                            d_ = self.ex(k.value)
+                            if not isinstance(d_, dict):
+                                raise Unsupported("** of something that is not a dict")
+                            given_.update({self.pyval(k2_): v2_ for k2_, v2_ in d_.items()})
                     if cm[m].args.vararg is not None:
                         given_[cm[m].args.vararg.arg] = tuple(posv_[len(pn_):])
                     return sub.run_fn(cm[m], **given_)
@@ -1873,6 +1943,8 @@ class TenSym(PySym):
             return [(i, x) for i, x in enumerate(it_, start_)]
         if cn in ("zip",):
             return list(zip(*[self.iterate(self.ex(a)) for a in n.args]))
+        if cn == "dict" and not n.args and all(k.arg is not None for k in n.keywords) and "dict" not in self.models and "dict" not in self.funcs:
+            return {k.arg: self.ex(k.value) for k in n.keywords}        # dict(a=1, b=2): options collected to be splatted into a call
         if cn in ("list", "tuple"):
             return (list if cn == "list" else tuple)(self.iterate(A(0)))
         if cn in ("float", "np.float64", "np.float32", "np.double"):
@@ -1929,6 +2001,13 @@ class TenSym(PySym):
         if cn in ("isinstance",):
             v = A(0)
             tn = src(n.args[1])
+            if isinstance(n.args[1], ast.Name) and n.args[1].id in self.env:
+                # the types held in a local: `kinds = (list, tuple)`
+                tv_ = self.env[n.args[1].id]
+                tv_ = list(tv_) if isinstance(tv_, (tuple, list)) and not (len(tv_) == 2 and tv_[0] == "<type>") else [tv_]
+                if not all(isinstance(x_, tuple) and len(x_) == 2 and x_[0] == "<type>" for x_ in tv_):
+                    raise Unsupported("isinstance with types held in %s" % n.args[1].id)
+                tn = " ".join(x_[1] for x_ in tv_)
             if isinstance(v, str):
                 return "str" in tn
             if isinstance(v, (list, tuple)):
@@ -2490,7 +2569,8 @@ class TenSym(PySym):
                     recv_ = self.ex(s.value.func.value)
                 except Unsupported:
                     recv_ = None
-                if isinstance(recv_, Obj) and (s.value.func.attr in (recv_.__dict__.get("_methods") or {}) or callable(getattr(recv_, s.value.func.attr, None))):
+                if isinstance(recv_, Obj) and (s.value.func.attr in (recv_.__dict__.get("_methods") or {}) or callable(getattr(recv_, s.value.func.attr, None))
+                                              or (s.value.func.attr not in recv_.__dict__ and self._sibling_method(recv_, s.value.func.attr) is not None)):
                     self.ex(s.value)
                     return
                 if isinstance(recv_, Ten) and s.value.func.attr == "fill" and len(s.value.args) == 1:
